@@ -100,14 +100,20 @@ Fixpoint p_nat (s : str) (acc : nat) (seen : bool) : option (nat * str) :=
   end.
 
 (* after '{' : m} | m,} | m,n}  -> (m, optional n, rest) ; None = not a repetition (the brace is a literal) *)
+(* Go's parser rejects a count with a leading zero ("{03}" is literal text) *)
+Definition p_int (s : str) : option (nat * str) :=
+  match s with
+  | c :: d :: _ => if N.eqb c 48 && is_digit d then None else p_nat s 0%nat false
+  | _ => p_nat s 0%nat false
+  end.
 Definition p_bounds (s : str) : option (nat * option nat * bool * str) :=
-  match p_nat s 0%nat false with
+  match p_int s with
   | Some (m, c :: r) =>
       if N.eqb c c_rbrc then Some (m, Some m, false, r) else
       if N.eqb c c_comma then
         match r with
         | c2 :: r2 => if N.eqb c2 c_rbrc then Some (m, None, true, r2) else
-                      match p_nat r 0%nat false with
+                      match p_int r with
                       | Some (n, c3 :: r3) => if N.eqb c3 c_rbrc then Some (m, Some n, false, r3) else None
                       | _ => None
                       end
